@@ -12,7 +12,7 @@ import numpy as np
 
 from .common import load_case, scratch_dir
 
-KINDS = ["voltage", "power", "ipower", "current", "z", "y"]
+KINDS = ["voltage", "power", "ipower", "current", "z", "y", "dc_voltage", "dc_current", "r", "g"]
 
 
 def _bases_of(ss, mdl):
@@ -31,6 +31,23 @@ def _bases_of(ss, mdl):
     return Sn, Vn, np.full(n, Sb), Vb
 
 
+def _dc_bases_of(ss, mdl):
+    """(Vdcn / Vdcb, Idcn / Idcb) per device: device ratings against the DC node voltage base and Sb / Vdcb"""
+    Sb = float(ss.config.mva)
+    n = mdl.n
+    if "node" in mdl.__dict__:
+        Vdcb = np.asarray(ss.Node.get(src="Vdcn", idx=mdl.node.v, attr="v"), dtype=float)
+        Vdcn = np.asarray(mdl.Vdcn.v, dtype=float) if "Vdcn" in mdl.__dict__ else Vdcb
+    elif "node1" in mdl.__dict__:
+        Vdcb = np.asarray(ss.Node.get(src="Vdcn", idx=mdl.node1.v, attr="v"), dtype=float)
+        Vdcn = np.asarray(mdl.Vdcn1.v, dtype=float) if "Vdcn1" in mdl.__dict__ else Vdcb
+    else:
+        return np.ones(n), np.ones(n)
+    Idcb = Sb / Vdcb
+    Idcn = np.asarray(mdl.Idcn.v, dtype=float) if "Idcn" in mdl.__dict__ else Idcb
+    return Vdcn / Vdcb, Idcn / Idcb
+
+
 def _frac(x):
     f = Fraction(float(x)).limit_denominator(10000)
     if abs(float(f) - float(x)) > 1e-12 * max(1.0, abs(float(x))) or abs(f.numerator) > 2 ** 20 or f.denominator > 2 ** 12:
@@ -45,13 +62,19 @@ def observe_case(sc):
         from . import pfdrv, netbuild
         ss, _, _ = netbuild.build(pfdrv.network_spec(*sc["gen"]))
     else:
-        ss = load_case(sc["case"])
+        ss = load_case(sc["case"], setup=not sc.get("dc_extra"))
+        if sc.get("dc_extra"):
+            # a DC branch rated on bases different from its node's (stock DC devices are all rated on the node base)
+            for k, (vd, idc) in enumerate(sc["dc_extra"]):
+                ss.add("RCs", dict(idx="RCx%d" % k, node1=1, node2=0, Vdcn1=vd, Vdcn2=vd, Idcn=idc, R=0.5 + k, C=0.02 * (k + 1)))
+            ss.setup()
     recs = []
     for mname, mdl in ss.models.items():
         if mdl.n == 0:
             continue
         try:
             Sn, Vn, Sb, Vb = _bases_of(ss, mdl)
+            rvd_a, rid_a = _dc_bases_of(ss, mdl)
         except Exception:
             continue
         for kind in KINDS:
@@ -68,7 +91,10 @@ def observe_case(sc):
                     rs = Fraction(*fb[0]) / Fraction(*fb[2])
                     if max(abs(rv.numerator), rv.denominator, abs(rs.numerator), rs.denominator) > 20000:
                         continue
-                    b = [[rv.numerator, rv.denominator], [rs.numerator, rs.denominator]]
+                    fd = [_frac(rvd_a[k]), _frac(rid_a[k])]
+                    if any(x is None for x in fd):
+                        continue
+                    b = [[rv.numerator, rv.denominator], [rs.numerator, rs.denominator], fd[0], fd[1]]
                     recs.append(dict(model=mname, param=pname, kind=kind, dev=str(mdl.idx.v[k]), vin=float(p.vin[k]),
                                      v=float(p.v[k]), k=float(p.pu_coeff[k]), bases=b))
     return dict(sid=sc["sid"], recs=recs)
